@@ -53,6 +53,13 @@ def generate(prop, rng, seed, index, tier):
                 ops.append({'t': t, 'op': 'append', 'data': pc})
         if not any(o['op'] == 'start' for o in ops):
             ops.append({'t': t, 'op': 'start'})
+        if rng.random() < 0.25:
+            # the reader is paused and resumed while data keeps arriving (stop() then start()): what was
+            # written must still come out exactly once - also the records of a read that was being emitted
+            t0 = [o['t'] for o in ops if o['op'] == 'start'][0]
+            ts = t0 + rng.choice([0, 0.25, 0.5, 0.75, 1, 1.5, 2, 3])
+            ops.append({'t': ts, 'op': 'stop'})
+            ops.append({'t': ts + rng.choice([0, 0.25, 0.5, 1, 2]), 'op': 'start'})
         sink = {'kind': rng.choice(['sync', 'native', 'tornado'])}
         if sink['kind'] != 'sync':
             sink['lat'] = [rng.choice([None, 0, 0.25, 0.5, 1, 2]) for _ in range(rng.randrange(1, 4))]
@@ -93,6 +100,13 @@ def generate(prop, rng, seed, index, tier):
             'ops': ops, 'sink': sink, 'via_map': False,
             'tiebreak': rng.choice(['fifo', 'lifo', 'seeded']), 'tiebreak_seed': rng.randrange(1000),
             'drain': (len(names) + 3) * (maxlat + poll) + 5}
+
+
+def _sink_spans(ev):
+    """(start event, end seq or None) of every sink invocation"""
+    starts = [e for e in ev if e[2] == 'sink_start']
+    ends = [e[0] for e in ev if e[2] == 'sink_end']
+    return [(st, ends[k] if k < len(ends) else None) for k, st in enumerate(starts)]
 
 
 def evaluate(prop, sc, want_trace=False):
@@ -151,6 +165,12 @@ def evaluate(prop, sc, want_trace=False):
                 out.probes['from_end_with_old_data'] = 1
             if s.get('short'):
                 out.probes['short_reads'] = 1
+            if any(o['op'] == 'stop' for o in sc['ops']):
+                out.probes['paused_and_resumed'] = 1
+                stops = [e[0] for e in ev if e[2] == 'stop_call']
+                if any(a[0] < sq and (b is None or b > sq) for sq in stops
+                       for a, b in _sink_spans(ev)):
+                    out.probes['paused_while_a_record_was_being_handled'] = 1
     elif s['type'] == 'filenames' and not V:
         names = list(s.get('pre', [])) + [o['name'] for o in sc['ops'] if o['op'] == 'create' and not o.get('skip')]
         seen = set()
